@@ -506,6 +506,8 @@ done
 [ -z "$name" ] && name="$TERM"
 case "$name" in
 xterm) printf '#\tstub\nxterm|stub entry,\n\tam,\n\tcols#80,\n\tlines#24,\n\tclear=\\E[H\\E[2J,\n\tcup=\\E[%%i%%p1%%d;%%p2%%dH,\n' ;;
+stubcolor) printf '#\tstub\nstubcolor|stub colour entry,\n\tam,\n\tcolors#8,\n\tcols#80,\n\tlines#24,\n\tclear=\\E[H\\E[2J,\n\tcup=\\E[%%i%%p1%%d;%%p2%%dH,\n\top=\\E[39;49m,\n\tsetab=\\E[4%%p1%%dm,\n\tsetaf=\\E[3%%p1%%dm,\n\tsgr0=\\E[m,\n' ;;
+stubxor) printf '#\tstub\nstubxor|stub entry with an exclusive-or in cup,\n\tcols#80,\n\tlines#24,\n\tclear=\\E[H\\E[2J,\n\tacsc=q\\0x\\263,\n\tcup=^L%%p2%%{96}%%^%%c%%p1%%{96}%%^%%c,\n' ;;
 *) echo "infocmp: couldn't open terminfo file for $name" >&2; exit 1 ;;
 esac
 `
@@ -548,6 +550,54 @@ func optionLikeNames() {
 		if !same(after, before) {
 			w.Violation("dynamic-option-name", fmt.Sprintf("TERM=xterm: after tcell.LookupTerminfo(%q) a lookup of \"xterm\" returns a different entry than before: %s", name, diff(after, before)),
 				map[string]interface{}{"name": name})
+		}
+	}
+	terminfo.VerifRestore(pristine)
+
+	// a name the system database has and the built-in one lacks: what the lookup returns is the
+	// same the first time (fresh from infocmp) and every later time (from the registry), and
+	// COLORTERM switches direct colour on for it as for any other entry
+	for _, ct := range []string{"", "truecolor"} {
+		w.R.Evaluations++
+		w.AddDistinct(1)
+		terminfo.VerifRestore(pristine)
+		envSetting{ct, ""}.apply()
+		conv := func(t *terminfo.Terminfo, err error) outcome {
+			if t != nil {
+				c := *t
+				c.Aliases = append([]string(nil), t.Aliases...)
+				t = &c
+			}
+			return outcome{t, err}
+		}
+		first := conv(tcell.LookupTerminfo("stubcolor"))
+		second := conv(tcell.LookupTerminfo("stubcolor"))
+		if first.err != nil {
+			w.Violation("dynamic-lookup", fmt.Sprintf("COLORTERM=%q: tcell.LookupTerminfo(\"stubcolor\") (known to infocmp) fails: %v", ct, first.err), nil)
+		} else if !same(first, second) {
+			w.Violation("dynamic-first-lookup-differs", fmt.Sprintf("COLORTERM=%q: the first tcell.LookupTerminfo(\"stubcolor\") (answered by infocmp) and the second one (answered from the registry) return different entries: %s", ct, diff(first, second)), map[string]interface{}{"COLORTERM": ct})
+		} else if ct == "truecolor" && first.ti.SetFgBgRGB == "" && first.ti.SetFgRGB == "" {
+			w.Violation("dynamic-colorterm-ignored", "COLORTERM=truecolor: tcell.LookupTerminfo(\"stubcolor\") returns an entry without direct-colour strings", nil)
+		}
+	}
+	// a cursor-addressing string with the exclusive-or operator %^ (dm2500 has one) keeps it
+	{
+		w.R.Evaluations++
+		terminfo.VerifRestore(pristine)
+		envSetting{"", ""}.apply()
+		ti, err := tcell.LookupTerminfo("stubxor")
+		if err != nil {
+			w.Violation("dynamic-lookup", fmt.Sprintf("tcell.LookupTerminfo(\"stubxor\") fails: %v", err), nil)
+		} else if want := "\x0c%p2%{96}%^%c%p1%{96}%^%c"; ti.SetCursor != want {
+			w.Violation("dynamic-caret-operator", fmt.Sprintf("infocmp prints cup=^L%%p2%%{96}%%^%%c%%p1%%{96}%%^%%c; tcell.LookupTerminfo decodes it as %q, want %q (the ^ after %% is the exclusive-or operator, not a control-character escape)", ti.SetCursor, want), nil)
+		}
+	}
+	// ... and \0 in a string is the byte 0200 (terminfo(5)), here the glyph of the horizontal line
+	{
+		w.R.Evaluations++
+		terminfo.VerifRestore(pristine)
+		if ti, err := tcell.LookupTerminfo("stubxor"); err == nil && ti.AltChars != "q\x80x\xb3" {
+			w.Violation("dynamic-nul-escape", fmt.Sprintf("infocmp prints acsc=q\\0x\\263; tcell.LookupTerminfo decodes it as %q, want %q (terminfo(5): \\0 produces \\200)", ti.AltChars, "q\x80x\xb3"), nil)
 		}
 	}
 	terminfo.VerifRestore(pristine)
